@@ -100,6 +100,11 @@ Proof.
   unfold kill_cs. destruct (f t) eqn:E; auto; destruct (Nat.eqb_spec (pr t) p); auto; right; repeat split; auto; discriminate.
 Qed.
 
+Lemma kill_cs_other p pr f t : pr t <> p -> kill_cs p pr f t = f t.
+Proof. intros H. unfold kill_cs. destruct (f t); auto; destruct (Nat.eqb_spec (pr t) p); auto; contradiction. Qed.
+Lemma kill_cs_dead p pr f t : pr t = p -> f t <> CIdle -> kill_cs p pr f t = CDead.
+Proof. intros H Hn. unfold kill_cs. destruct (f t); try contradiction; rewrite H, Nat.eqb_refl; reflexivity. Qed.
+
 Section PartA.
 Variable c : config.
 Hypothesis Hchk : checks c = true.
@@ -315,8 +320,13 @@ Definition owner (s : state) (t : tid) (i : ino) : Prop :=
 Definition gives_up (c : config) (s : state) (l : label) : Prop :=
   exists t ec i, l = LOpenRead t /\ cs s t = CExists ec /\ file s = Some i /\ content s i = FEmpty /\
                  (S ec <? retries c)%nat = false.
+(** SIGKILL of a process one of whose threads has created or holds the lock file.  Kills of
+    any other process (waiters, processes that released long ago, their old heartbeats) are
+    allowed in the runs of Part B: "as long as every holder is alive". *)
+Definition kills_owner (s : state) (l : label) : Prop :=
+  exists p t i, l = LKill p /\ owner s t i /\ cproc s t = p.
 Definition live_ok (c : config) (s : state) (l : label) : Prop :=
-  (forall p, l <> LKill p) /\ ~ gives_up c s l.
+  ~ kills_owner s l /\ ~ gives_up c s l.
 
 Record MInv (c : config) (s : state) : Prop := {
   M_file : forall t i, owner s t i -> file s = Some i;
@@ -523,8 +533,25 @@ Proof.
     intros t j H. destruct (Nat.eq_dec j i) as [->|Hne].
     + left. exists p, cr, (now s + interval c), (now s). rewrite !upd_eq. auto.
     + rewrite !upd_neq by assumption. exact (Mh _ _ H).
-  - (* kill *)
-    destruct (Hnk p eq_refl).
+  - (* kill of a process that owns nothing *)
+    cbn [step] in Hstep. injection Hstep as <-.
+    assert (Hkeep : forall t i, owner s t i -> kill_cs p (cproc s) (cs s) t = cs s t).
+    { intros t i Ho. apply kill_cs_other. intros E. apply Hnk. exists p, t, i. auto. }
+    assert (Hback : forall t i, ((exists ec, kill_cs p (cproc s) (cs s) t = CCreated ec i) \/ kill_cs p (cproc s) (cs s) t = CHolding i) -> owner s t i).
+    { intros t i H. destruct (kill_cs_cases p (cproc s) (cs s) t) as [E|[E _]]; rewrite E in H; [exact H|].
+      destruct H as [[ec H]|H]; discriminate. }
+    constructor; unfold owner; cbn [cs file content hb].
+    + intros t i H. apply (Mf t). apply Hback. exact H.
+    + intros t1 t2 i1 i2 H1 H2. apply Hback in H1, H2. eapply Mo; eauto.
+    + intros i H. destruct (Mfile i H) as [t Ho]. exists t. rewrite (Hkeep t i Ho). exact Ho.
+    + intros t ec H. destruct (kill_cs_cases p (cproc s) (cs s) t) as [E|[E _]]; rewrite E in H; [exact (Mn _ _ H) | discriminate].
+    + intros t i H. assert (Ho : owner s t i) by (apply Hback; right; exact H).
+      assert (Hc : cs s t = CHolding i) by (rewrite <- (Hkeep t i Ho); exact H).
+      assert (Hp : cproc s t <> p) by (intros E; apply Hnk; exists p, t, i; auto).
+      assert (Hkh : kill_hb p (hb s) i = hb s i).
+      { destruct (kill_hb_cases p (hb s) i) as [E|[_ E]]; [exact E|].
+        exfalso. apply Hp. symmetry. exact (HB_proc c s HB t i p Hc E). }
+      rewrite Hkh. exact (Mh _ _ Hc).
 Qed.
 
 Definition BothInv (s : state) : Prop := HBInv c s /\ MInv c s.
@@ -593,6 +620,30 @@ Proof.
   - eauto.
 Qed.
 
+(** a waiter never sleeps longer than the longer of the two intervals: in every state of
+    every run (any labels, kills included) a sleeping Lock call is due to look at the lock
+    file again within max(poll, esleep) *)
+Definition sleep_bound (c : config) : Z := Z.max (poll c) (esleep c).
+Definition SleepInv (c : config) (s : state) : Prop :=
+  forall t ec u, cs s t = CSleep ec u -> u <= now s + sleep_bound c.
+Lemma SleepInv_step c s l s' : SleepInv c s -> step c s l = Some s' -> SleepInv c s'.
+Proof.
+  unfold SleepInv, sleep_bound. intros HI Hs t' ec' u'.
+  inv_step Hs; cbn [cs now set_cs]; intros H;
+    try (destruct (Nat.eq_dec t' t) as [->|Hne];
+         [rewrite upd_eq in H; try discriminate; try (injection H; intros <- <-; lia)
+         | rewrite upd_neq in H by assumption; exact (HI _ _ _ H)]);
+    try exact (HI _ _ _ H).
+  - apply andb_true_iff in Eb. destruct Eb as [Eb _]. apply Z.leb_le in Eb. specialize (HI _ _ _ H). lia.
+  - destruct (kill_cs_cases p (cproc s) (cs s) t') as [E|[E _]]; rewrite E in H; [exact (HI _ _ _ H) | discriminate].
+Qed.
+Lemma SleepInv_reach c ok s : reach c ok init s -> SleepInv c s.
+Proof.
+  apply (reach_invariant c ok (SleepInv c)).
+  - intros x l y Hx _ Hs. exact (SleepInv_step c x l y Hx Hs).
+  - intros t ec u H. discriminate.
+Qed.
+
 (** * Part D: recovery after the holder's death *)
 
 (** the lock file (inode [i]) is in place but nobody maintains it: no creator is about to
@@ -606,21 +657,30 @@ Variable c : config.
 Hypothesis Hchk : checks c = true.
 Hypothesis Hcfg : good_cfg c.
 
-(** killing the holder's process abandons its lock file: the heartbeat dies with it *)
-Lemma kill_abandons s t i s' : HBInv c s -> cs s t = CHolding i -> file s = Some i ->
+(** killing the process of the thread that holds the lock - or that has created the lock file
+    and not yet written it - abandons the lock file: its heartbeat (if started) dies with it *)
+Lemma kill_abandons s t i s' : HBInv c s -> owner s t i -> file s = Some i ->
   step c s (LKill (cproc s t)) = Some s' -> abandoned s' i.
 Proof.
-  intros HB Hh Hf Hs. cbn [step] in Hs. injection Hs as <-. unfold abandoned. cbn [file cs hb].
-  pose proof (HB_held c s HB _ _ Hh) as Hne. pose proof (fun q => HB_proc c s HB t i q) as Hp.
-  split; [assumption|]. split; [|split].
-  - intros t' ec H. destruct (kill_cs_cases (cproc s t) (cproc s) (cs s) t') as [E|[E _]]; rewrite E in H; [|discriminate].
-    destruct (HB_created c s HB _ _ _ H) as (_ & E2 & _). contradiction.
-  - intros p cr due H. destruct (kill_hb_cases (cproc s t) (hb s) i) as [E|[E _]]; rewrite E in H; [|discriminate].
-    assert (Hq := Hp p Hh ltac:(rewrite H; reflexivity)). subst p.
-    unfold kill_hb in E. rewrite H in E. cbn in E. rewrite Nat.eqb_refl in E. discriminate.
-  - intros p cr j fcr sn H. destruct (kill_hb_cases (cproc s t) (hb s) i) as [E|[E _]]; rewrite E in H; [|discriminate].
-    assert (Hq := Hp p Hh ltac:(rewrite H; reflexivity)). subst p.
-    unfold kill_hb in E. rewrite H in E. cbn in E. rewrite Nat.eqb_refl in E. discriminate.
+  intros HB Ho Hf Hs. cbn [step] in Hs. injection Hs as <-. unfold abandoned. cbn [file cs hb].
+  split; [assumption|].
+  assert (Hnc : forall t' ec, kill_cs (cproc s t) (cproc s) (cs s) t' <> CCreated ec i).
+  { intros t' ec H. destruct (kill_cs_cases (cproc s t) (cproc s) (cs s) t') as [E|[E _]]; rewrite E in H; [|discriminate].
+    destruct Ho as [[ec0 Ho]|Ho].
+    - assert (t' = t) by exact (HB_created_uniq c s HB _ _ _ _ _ H Ho). subst t'.
+      rewrite kill_cs_dead in E by (auto; congruence). congruence.
+    - destruct (HB_created c s HB _ _ _ H) as (_ & E2 & _). exact (HB_held c s HB _ _ Ho E2). }
+  split; [exact Hnc|].
+  destruct Ho as [[ec0 Ho]|Hh].
+  - destruct (HB_created c s HB _ _ _ Ho) as (_ & E2 & _).
+    rewrite (kill_hb_none _ _ _ E2). split; intros; discriminate.
+  - pose proof (fun q => HB_proc c s HB t i q) as Hp. split.
+    + intros p cr due H. destruct (kill_hb_cases (cproc s t) (hb s) i) as [E|[E _]]; rewrite E in H; [|discriminate].
+      assert (Hq := Hp p Hh ltac:(rewrite H; reflexivity)). subst p.
+      unfold kill_hb in E. rewrite H in E. cbn in E. rewrite Nat.eqb_refl in E. discriminate.
+    + intros p cr j fcr sn H. destruct (kill_hb_cases (cproc s t) (hb s) i) as [E|[E _]]; rewrite E in H; [|discriminate].
+      assert (Hq := Hp p Hh ltac:(rewrite H; reflexivity)). subst p.
+      unfold kill_hb in E. rewrite H in E. cbn in E. rewrite Nat.eqb_refl in E. discriminate.
 Qed.
 
 (** while an abandoned lock file stays in place nobody writes it, and it stays abandoned *)
@@ -749,7 +809,7 @@ Theorem stale_recovers s0 t i cr u s ls s' w ec :
                  cs s4 w = CCreated ec' (nexti s') /\ file s4 = Some (nexti s') /\ now s4 = now s'.
 Proof.
   intros HB Hh Hf Hc Hk Hr Hf' Hlate Hw.
-  pose proof (kill_abandons s0 t i s HB Hh Hf Hk) as Ha.
+  pose proof (kill_abandons s0 t i s HB (or_intror Hh) Hf Hk) as Ha.
   pose proof (HBInv_step c Hchk Hcfg s0 _ s HB Hk) as HBs.
   assert (Hcs : content s i = content s0 i /\ now s = now s0).
   { cbn [step] in Hk. injection Hk as <-. cbn. auto. }
@@ -760,10 +820,11 @@ Proof.
   pose proof (HB_time c s0 HB i cr u Hc) as Hu. unfold is_stale. apply Z.ltb_lt. lia.
 Qed.
 
-(** the same when the holder died while the file was empty (in the creation or truncate
-    gap): the file stays empty, and every read of it counts towards the retry limit *)
+(** the same when the holder died while the file was empty (killed between the O_EXCL
+    create and the metadata write, or in a heartbeat's truncate gap): the file stays empty,
+    and every read of it counts towards the retry limit *)
 Theorem empty_recovers s0 t i s ls s' :
-  HBInv c s0 -> cs s0 t = CHolding i -> file s0 = Some i -> content s0 i = FEmpty ->
+  HBInv c s0 -> owner s0 t i -> file s0 = Some i -> content s0 i = FEmpty ->
   step c s0 (LKill (cproc s0 t)) = Some s ->
   run c s ls = Some s' -> file s' = Some i ->
   content s' i = FEmpty /\
